@@ -9,13 +9,25 @@
 (*           about CALLS on a wrapper object (layer-by-layer evaluation = law, fallback iff raises,*)
 (*           kwargs_support drops exactly ..., wrapping twice = once); in the generator the table  *)
 (*           (signature, chain) -> expected outcome of every call of the menu                      *)
+(*   "exc"   one state per (base signature, chain of <= MaxExcChain decorator kinds, also the kinds with optional  *)
+(*           parameters set): every way f can fail (FailMarks) x every place the failing value can be passed       *)
+(*   "args"  the caller's bindings: histories of getcallargs / call_with_callargs (on f and on a wrapper of f) /   *)
+(*           the caller's own edits of a binding it holds, over one wrapper kind and a menu of calls that fill     *)
+(*           *args and **kw                                                                                          *)
+(*   "deco"  ready-made decorator objects (one per history; two in the thorough tier) applied to two functions      *)
+(*           made from one code object, the decorated functions called in any order                                 *)
 (* The generator actions (NextGen) print, with PrintT(ToJson(..)), the case and what the          *)
 (* specification expects; `hist` is only ever extended by them.  MC_Decorators_today.cfg runs the  *)
 (* pointer-heap model of TODAY's wrapper.__init__ (FixedCode = FALSE), which breaks MechRefinesMC. *)
 EXTENDS Decorators, Json
-CONSTANTS MaxWraps, LastOnlyFrom, MaxChain, MaxCalls, Wide, Modes
-VARIABLES mode, hist
-mcvars == <<base, objs, cells, roots, memo, evals, out, mode, hist>>
+CONSTANTS MaxWraps, LastOnlyFrom, MaxChain, MaxCalls, Wide, Modes,
+          MaxExcChain,     \* "exc": chains of that many decorator kinds
+          MaxBindings,     \* "args": bindings the caller holds at a time
+          MaxArgSteps,     \* "args": length of a generated history
+          MaxDecoObjs, MaxDecoCalls, TwoDecos   \* "deco": decorated functions, calls per generated history, a second decorator object
+VARIABLES mode, hist,
+          dkinds           \* "deco": the ready-made decorator objects of the history (kinds); <<>> in the other modes
+mcvars == <<base, objs, cells, roots, memo, evals, store, dobjs, out, mode, hist, dkinds>>
 
 \* ------------------------------------------------------------------ universes
 PlainSigs == {s \in [npos : 0..4, ndef : 0..4, varargs : BOOLEAN, varkw : BOOLEAN, alt : {FALSE}] : s.ndef <= s.npos}
@@ -64,55 +76,162 @@ MemoKeys == {Key(<<VInt(1)>>, <<>>), Key(<<>>, <<<<"a", VInt(1)>>>>), Key(<<>>, 
 SeqsUpTo(Z, n) == UNION {[1..m -> Z] : m \in 0..n}
 NormalChains == {Tup(ch) : ch \in {z \in SeqsUpTo(Layers, MaxChain) : DistinctClasses(z)}}
 
+\* --- "exc": how f fails x where the failing value is passed ---------------------------------------
+ExcChains == {Tup(ks) : ks \in {z \in SeqsUpTo(Range(ExcKindSeq), MaxExcChain) : Len(z) >= 1 /\ DistinctClasses([i \in 1..Len(z) |-> LayerOf(z[i])])}}
+KindChain(ks) == Tup([i \in 1..Len(ks) |-> LayerOf(ks[i])])
+\* the failing value as the first / the second positional argument, as keyword a / b, among *args, among **kw
+ExcCallsFor(sig) == {cc \in {[pos |-> <<VStr(m)>>, kw |-> <<>>] : m \in Range(FailMarks)}
+                           \cup {[pos |-> <<VInt(1), VStr(m)>>, kw |-> <<>>] : m \in Range(FailMarks)}
+                           \cup {[pos |-> <<VInt(1), VInt(2), VStr(m)>>, kw |-> <<>>] : m \in Range(FailMarks)}
+                           \cup {[pos |-> <<>>, kw |-> <<<<"a", VStr(m)>>>>] : m \in Range(FailMarks)}
+                           \cup {[pos |-> <<VInt(1)>>, kw |-> <<<<"b", VStr(m)>>>>] : m \in Range(FailMarks)}
+                           \cup {[pos |-> <<VInt(1)>>, kw |-> <<<<"x", VStr(m)>>>>] : m \in Range(FailMarks)}
+                           \cup {[pos |-> <<VInt(1)>>, kw |-> <<>>], [pos |-> <<Quiet>>, kw |-> <<>>]} :
+                       Valid(sig, DropUndeclared(sig, cc))}         \* valid for f, or for kwargs_support(f)
+ExcCallsOf == [sig \in BaseSigs |-> ExcCallsFor(sig)]
+
+\* --- "args": the calls whose bindings the caller holds ----------------------------------------------
+ArgSigs == {S(2, 1, FALSE, FALSE), S(1, 0, TRUE, TRUE), S(2, 2, FALSE, TRUE), S(2, 1, TRUE, TRUE)}
+           \cup (IF Wide THEN {S(0, 0, TRUE, FALSE), S(3, 2, TRUE, TRUE)} ELSE {})
+\* minimal (the defaults show) | *args and **kw actually filled | everything by keyword | (Wide) a mixed split
+ArgCallsFor(sig) == {CC(ac) : ac \in {z \in {[k |-> sig.npos - sig.ndef, kw |-> {}, mark |-> "ok"],
+                                               [k |-> IF sig.varargs THEN sig.npos + 2 ELSE sig.npos, kw |-> IF sig.varkw THEN {"x", "y"} ELSE {}, mark |-> "ok"],
+                                               [k |-> 0, kw |-> Params(sig) \cup (IF sig.varkw THEN {"x"} ELSE {}), mark |-> "ok"]}
+                                              \cup (IF Wide THEN {[k |-> IF sig.npos >= 1 THEN 1 ELSE 0, kw |-> (Params(sig) \ {"a"}) \cup (IF sig.varkw THEN {"y"} ELSE {}), mark |-> "ok"]} ELSE {}) :
+                                          Valid(sig, CC(z))}}
+ArgCallsOf == [sig \in ArgSigs |-> ArgCallsFor(sig)]
+ArgKinds == Kinds \cup {"try_zero_verbose"}
+
+\* --- "deco": the calls on decorated functions (both functions accept them; the twins differ in what they return)
+DecoSigs  == {MemoSig} \cup (IF Wide THEN {S(2, 2, FALSE, TRUE)} ELSE {})
+DecoCalls == {Key(<<VInt(1)>>, <<>>), Key(<<VStr("bad_bare")>>, <<>>)}
+             \cup (IF Wide THEN {Key(<<>>, <<<<"a", VInt(1)>>>>), Key(<<VInt(1), VInt(2)>>, <<>>)} ELSE {})
+DecoKinds == Range(ExcKindSeq)
+
 \* ------------------------------------------------------------------ the machines
 \* The shape of the heap does not depend on the base function, the outcome of a call depends only on
 \* (base function, chain of the object called): "heap" runs on one base function, "chain" has one
 \* initial state per (base function, reachable chain) and carries the clauses about calls.
 Init == /\ mode \in Modes /\ hist = <<>>
-        /\ \/ mode = "bind" /\ \E sig \in AllSigs : SessionInit(sig)
-           \/ mode = "heap" /\ SessionInit(MemoSig)
-           \/ mode = "memo" /\ SessionInit(MemoSig)
-           \/ mode = "chain" /\ \E sig \in BaseSigs, ch \in NormalChains :
+        /\ \/ mode = "bind" /\ dkinds = <<>> /\ \E sig \in AllSigs : SessionInit(sig)
+           \/ mode = "heap" /\ dkinds = <<>> /\ SessionInit(MemoSig)
+           \/ mode = "memo" /\ dkinds = <<>> /\ SessionInit(MemoSig)
+           \/ mode = "chain" /\ dkinds = <<>> /\ \E sig \in BaseSigs, ch \in NormalChains :
                   /\ base = sig /\ objs = <<ch>> /\ cells = <<>> /\ roots = <<>>
-                  /\ memo = <<>> /\ evals = 0 /\ out = <<"idle", 0>>
+                  /\ memo = <<>> /\ evals = 0 /\ store = <<>> /\ dobjs = <<>> /\ out = <<"idle", 0>>
+           \* "exc": dkinds holds the kinds of the chain (the optional parameters are no part of a layer)
+           \/ mode = "exc" /\ \E sig \in BaseSigs, ks \in ExcChains :
+                  /\ dkinds = ks /\ base = sig /\ objs = <<KindChain(ks)>> /\ cells = <<>> /\ roots = <<>>
+                  /\ memo = <<>> /\ evals = 0 /\ store = <<>> /\ dobjs = <<>> /\ out = <<"idle", 0>>
+           \* "args": object 0 = f, object 1 = W(f) for one decorator kind W
+           \/ mode = "args" /\ \E sig \in ArgSigs, kind \in ArgKinds :
+                  /\ dkinds = <<kind>> /\ base = sig /\ objs = <<<<LayerOf(kind)>>>> /\ cells = <<>> /\ roots = <<>>
+                  /\ memo = <<>> /\ evals = 0 /\ store = <<>> /\ dobjs = <<>> /\ out = <<"idle", 0>>
+           \/ mode = "deco" /\ \E sig \in DecoSigs, k1 \in DecoKinds :
+                  /\ SessionInit(sig)
+                  /\ \/ dkinds = <<k1>>
+                     \/ TwoDecos /\ \E k2 \in Kinds : ClassOf(k2) # ClassOf(k1) /\ dkinds = <<k1, k2>>
 
 CanWrap(target) == /\ Len(objs) < MaxWraps
                    /\ (Len(objs) + 1 >= LastOnlyFrom => target = Len(objs))
 BindStep   == /\ mode = "bind" /\ out[1] = "idle" /\ \E ac \in AbsCallsOf[base] : Call(0, CC(ac))
-              /\ UNCHANGED <<mode, hist>>
+              /\ UNCHANGED <<mode, hist, dkinds>>
 WrapStep   == /\ mode = "heap" /\ \E kind \in Kinds, target \in 0..Len(objs) : CanWrap(target) /\ Wrap(LayerOf(kind), target)
-              /\ UNCHANGED <<mode, hist>>
+              /\ UNCHANGED <<mode, hist, dkinds>>
 CachedStep == /\ mode = "memo" /\ \E cc \in MemoKeys : CallCached(cc)
-              /\ UNCHANGED <<mode, hist>>
+              /\ UNCHANGED <<mode, hist, dkinds>>
 \* (TLC checks the invariants of initial states on one thread: the clauses about calls are attached to the
 \*  state after this step so that all workers share them)
-ChainStep  == /\ mode = "chain" /\ out[1] = "idle" /\ out' = <<"table", 0>>
-              /\ UNCHANGED <<base, objs, cells, roots, memo, evals, mode, hist>>
-Next == BindStep \/ WrapStep \/ CachedStep \/ ChainStep
+ChainStep  == /\ mode \in {"chain", "exc"} /\ out[1] = "idle" /\ out' = <<"table", 0>>
+              /\ UNCHANGED <<base, objs, cells, roots, memo, evals, store, dobjs, mode, hist, dkinds>>
+\* "args": any public call on a binding, any edit by its owner
+ArgGetOK      == Len(store) < MaxBindings
+ArgGetStep    == /\ mode = "args" /\ ArgGetOK /\ \E o \in 0..1, cc \in ArgCallsOf[base] : GetCallArgs(o, cc)
+                 /\ UNCHANGED <<mode, hist, dkinds>>
+ArgReplayStep == /\ mode = "args" /\ \E o \in 0..1, i \in 1..Len(store) : Replay(o, i)
+                 /\ UNCHANGED <<mode, hist, dkinds>>
+ArgEditStep   == /\ mode = "args" /\ \E i \in 1..Len(store), e \in Range(Edits) : EditBinding(i, e)
+                 /\ UNCHANGED <<mode, hist, dkinds>>
+\* "deco": the first decorated function is function 1; a ready-made decorator is applied to a function once, and
+\* to decorated functions as long as there is room
+CanDecorate(k, fn) == /\ Len(dobjs) < MaxDecoObjs
+                      /\ (dobjs = <<>> => fn = 1 /\ k = 1)
+                      /\ ~\E i \in 1..Len(dobjs) : dobjs[i].fn = fn /\ dobjs[i].chain = <<LayerOf(dkinds[k])>>
+CanRedecorate(k, i) == Len(dobjs) < MaxDecoObjs /\ Len(dobjs) >= 2
+DecorateStep   == /\ mode = "deco" /\ \E k \in 1..Len(dkinds), fn \in 1..2 : (CanDecorate(k, fn) = TRUE) /\ Decorate(dkinds[k], fn)
+                  /\ UNCHANGED <<mode, hist, dkinds>>
+RedecorateStep == /\ mode = "deco" /\ \E k \in 1..Len(dkinds), i \in 1..Len(dobjs) : (CanRedecorate(k, i) = TRUE) /\ Redecorate(dkinds[k], i)
+                  /\ UNCHANGED <<mode, hist, dkinds>>
+DecoCallStep   == /\ mode = "deco" /\ \E i \in 1..Len(dobjs), cc \in DecoCalls : CallDecorated(i, cc)
+                  /\ UNCHANGED <<mode, hist, dkinds>>
+Next == BindStep \/ WrapStep \/ CachedStep \/ ChainStep \/ ArgGetStep \/ ArgReplayStep \/ ArgEditStep
+        \/ DecorateStep \/ RedecorateStep \/ DecoCallStep
 
 \* ------------------------------------------------------------------ generator (S2C)
 SingleOuts(sig, cc) ==
     LET ks == SelectSeq(BindKindSeq, LAMBDA kind : ValidFor(sig, <<LayerOf(kind)>>, cc)) IN
     Tup([i \in 1..Len(ks) |-> <<ks[i], LawOutcome(sig, <<LayerOf(ks[i])>>, cc)>>])
 GenBind == mode = "bind" /\ out[1] = "idle" /\ \E ac \in AbsCallsOf[base] : LET cc == CC(ac) IN
-    /\ Call(0, cc) /\ UNCHANGED <<mode, hist>>
+    /\ Call(0, cc) /\ UNCHANGED <<mode, hist, dkinds>>
     /\ PrintT(ToJson([part |-> "bind", sig |-> base, cc |-> cc, valid |-> Valid(base, cc),
                       bind |-> IF Valid(base, cc) THEN Bind(base, cc) ELSE Unspecified,
                       ret  |-> IF Valid(base, cc) THEN BaseOutcome(base, cc) ELSE Unspecified,
                       argspec |-> ArgSpec(base), outs |-> SingleOuts(base, cc)]))
 GenWrap == mode = "heap" /\ \E kind \in Kinds, target \in 0..Len(objs) :
-    /\ CanWrap(target) /\ Wrap(LayerOf(kind), target) /\ hist' = Append(hist, <<kind, target>>) /\ UNCHANGED mode
+    /\ CanWrap(target) /\ Wrap(LayerOf(kind), target) /\ hist' = Append(hist, <<kind, target>>) /\ UNCHANGED <<mode, dkinds>>
     /\ PrintT(ToJson([part |-> "heap", hist |-> hist', objs |-> objs']))
 GenCached == mode = "memo" /\ Len(hist) < MaxCalls /\ \E cc \in MemoKeys :
-    /\ CallCached(cc) /\ hist' = Append(hist, cc) /\ UNCHANGED mode
+    /\ CallCached(cc) /\ hist' = Append(hist, cc) /\ UNCHANGED <<mode, dkinds>>
     /\ PrintT(ToJson([part |-> "memo", sig |-> base, calls |-> hist', out |-> out'[4], evals |-> evals']))
 GenChain ==
     /\ mode = "chain" /\ out[1] = "idle" /\ out' = <<"table", 0>>
-    /\ UNCHANGED <<base, objs, cells, roots, memo, evals, mode, hist>>
+    /\ UNCHANGED <<base, objs, cells, roots, memo, evals, store, dobjs, mode, hist, dkinds>>
     /\ LET ms == SetToSeq({cc \in Menu(base) : ValidFor(base, objs[1], cc)}) IN
        PrintT(ToJson([part |-> "chain", sig |-> base, chain |-> objs[1], argspec |-> ArgSpec(base),
                       outs |-> Tup([i \in 1..Len(ms) |-> <<ms[i], LawOutcome(base, objs[1], ms[i])>>])]))
-NextGen == GenBind \/ GenWrap \/ GenCached \/ GenChain
+\* "exc": the table (kinds of the chain) -> expected outcome of every failing call
+GenExc ==
+    /\ mode = "exc" /\ out[1] = "idle" /\ out' = <<"table", 0>>
+    /\ UNCHANGED <<base, objs, cells, roots, memo, evals, store, dobjs, mode, hist, dkinds>>
+    /\ LET ms == SetToSeq({cc \in ExcCallsOf[base] : ValidFor(base, objs[1], cc)}) IN
+       PrintT(ToJson([part |-> "exc", sig |-> base, kinds |-> dkinds, chain |-> objs[1], argspec |-> ArgSpec(base),
+                      outs |-> Tup([i \in 1..Len(ms) |-> <<ms[i], LawOutcome(base, objs[1], ms[i])>>])]))
+\* "args": every step of a history with what the specification expects after it: the outcome of the call and ALL the
+\* caller's bindings
+ArgPrint == PrintT(ToJson([part |-> "args", sig |-> base, kind |-> dkinds[1], hist |-> hist', store |-> store',
+                           out |-> out'[Len(out')]]))
+\* (a further binding is obtained by the very call that gave the first one: "the same call again")
+GenArgGet == mode = "args" /\ Len(hist) < MaxArgSteps /\ ArgGetOK /\ \E o \in 0..1, cc \in ArgCallsOf[base] :
+    /\ (IF hist = <<>> THEN TRUE ELSE o = hist[1].obj /\ cc = hist[1].cc)
+    /\ GetCallArgs(o, cc) /\ hist' = Append(hist, [op |-> "get", obj |-> o, cc |-> cc, i |-> 0, e |-> ""]) /\ UNCHANGED <<mode, dkinds>>
+    /\ ArgPrint
+GenArgReplay == mode = "args" /\ Len(hist) < MaxArgSteps /\ \E o \in 0..1, i \in 1..Len(store) :
+    /\ Replay(o, i) /\ hist' = Append(hist, [op |-> "replay", obj |-> o, cc |-> Key(<<>>, <<>>), i |-> i, e |-> ""]) /\ UNCHANGED <<mode, dkinds>>
+    /\ ArgPrint
+\* (an edit is not a call: it is printed with the call that follows it; a history never ends with an edit that nobody observes
+\*  - except that the bindings after it are compared as well, which costs nothing)
+GenArgEdit == mode = "args" /\ Len(hist) < MaxArgSteps - 1 /\ \E i \in 1..Len(store), e \in Range(Edits) :
+    /\ EditBinding(i, e) /\ hist' = Append(hist, [op |-> "edit", obj |-> 0, cc |-> Key(<<>>, <<>>), i |-> i, e |-> e]) /\ UNCHANGED <<mode, dkinds>>
+\* "deco": every step with the decorated functions [fn, chain] that exist after it and, for a call, outcome and evaluations
+DecoView == Tup([i \in 1..Len(dobjs') |-> [fn |-> dobjs'[i].fn, chain |-> dobjs'[i].chain]])
+DecoPrint == PrintT(ToJson([part |-> "deco", sig |-> base, twin |-> TwinOf(base), kinds |-> dkinds, hist |-> hist', objs |-> DecoView,
+                            specs |-> <<ArgSpec(base), ArgSpec(TwinOf(base))>>,
+                            out |-> IF out'[1] = "dret" THEN <<out'[4], out'[5]>> ELSE <<>>]))
+NCalls == Cardinality({i \in 1..Len(hist) : hist[i].op = "call"})
+GenDecorate == mode = "deco" /\ \E k \in 1..Len(dkinds), fn \in 1..2 :
+    /\ (CanDecorate(k, fn) = TRUE) /\ Decorate(dkinds[k], fn)
+    /\ hist' = Append(hist, [op |-> "decorate", k |-> k, on |-> -fn, cc |-> Key(<<>>, <<>>)]) /\ UNCHANGED <<mode, dkinds>>
+    /\ DecoPrint
+GenRedecorate == mode = "deco" /\ \E k \in 1..Len(dkinds), i \in 1..Len(dobjs) :
+    /\ (CanRedecorate(k, i) = TRUE) /\ Redecorate(dkinds[k], i)
+    /\ hist' = Append(hist, [op |-> "decorate", k |-> k, on |-> i, cc |-> Key(<<>>, <<>>)]) /\ UNCHANGED <<mode, dkinds>>
+    /\ DecoPrint
+GenDecoCall == mode = "deco" /\ NCalls < MaxDecoCalls /\ \E i \in 1..Len(dobjs), cc \in DecoCalls :
+    /\ CallDecorated(i, cc)
+    /\ hist' = Append(hist, [op |-> "call", k |-> 0, on |-> i, cc |-> cc]) /\ UNCHANGED <<mode, dkinds>>
+    /\ DecoPrint
+NextGen == GenBind \/ GenWrap \/ GenCached \/ GenChain \/ GenExc \/ GenArgGet \/ GenArgReplay \/ GenArgEdit
+           \/ GenDecorate \/ GenRedecorate \/ GenDecoCall
 
 \* the memo machine says what the statement says about the whole call sequence (generator run: hist = the calls)
 MemoIsLaw == (mode = "memo" /\ hist # <<>>) => (out[4] = LawOuts(base, hist)[Len(hist)] /\ evals = LawEvals(hist))
@@ -162,6 +281,27 @@ WrapTwiceIsOnce == ChainState => \A ly \in Layers :
 NestingException(ly, ch) == IsTry(ly) /\ \E i \in 1..Len(ch) : ch[i][1] = ly[1] /\ (ch[i] # ly \/ \E j \in 1..Len(ch) : IsTry(ch[j]) /\ ch[j][1] # ly[1])
 NormalFormKeepsBehaviour == ChainState => \A ly \in Layers : (HasCls(Newest, ly[1]) /\ ~NestingException(ly, Newest)) =>
                                \A cc \in Menu(base) : ChainEval(base, <<ly>> \o Newest, cc) = ChainEval(base, NormalForm(ly, Newest), cc)
+\* (b') every way f can fail: layer-by-layer evaluation = the law; the fallback comes back exactly when f raises an
+\* Exception, whatever its realisation and whatever the optional parameters of the wrappers; interrupts pass through
+ExcState == mode = "exc" /\ out[1] = "table"
+ExcLaws == ExcState => \A cc \in ExcCallsOf[base] : ValidFor(base, Newest, cc) =>
+              LET eff == Effective(base, Newest, cc)  f == BaseOutcome(base, eff)  r == ChainEval(base, Newest, cc) IN
+              /\ r = LawOutcome(base, Newest, cc)
+              /\ (IsFailure(f) /\ TryIdx(Newest) # {}) => r = Fallback(Newest[Max(TryIdx(Newest))], base, cc)
+              /\ (~IsFailure(f) \/ TryIdx(Newest) = {}) => r = f
+              /\ IsInterrupt(f) => r = f
+\* (d) the statement's equation for every binding the caller got from getcallargs and did not edit:
+\* call_with_callargs(obj, getcallargs(obj, *a, **k)) == obj( *a, **k ) wherever the right-hand side is pinned
+ReplayIsTheCall == mode = "args" => \A cc \in ArgCallsOf[base], o \in 0..1 :
+                      LET want == LawOutcome(base, ChainOf(o), cc)  got == ReplayLaw(base, ChainOf(o), Bind(base, cc)) IN
+                      want = Unspecified \/ got = Unspecified \/ got = want
+ArgBindings == mode = "args" => BindingsAreBindings
+\* (e) a decorated function is a wrapper of ITS function only: the twins never answer for each other
+DecoLaws == (mode = "deco" /\ out[1] = "dret") =>
+               LET ob == dobjs[out[2]] IN
+               /\ out[4] = LawOutcome(FnSig(ob.fn), ob.chain, out[3])
+               /\ out[5][3 - ob.fn] = 0
+               /\ (~HasBad(out[3]) /\ Len(out[3].pos) + Len(out[3].kw) < 2) => out[4] # LawOutcome(FnSig(3 - ob.fn), ob.chain, out[3])
 MechRefinesMC == mode = "heap" => MechRefines
 \* the pointer heap: no root ever shows another chain than the one it showed when it was handed out
 MechOnlyNewObject == [][\A i \in 1..Len(roots) : View(cells', roots'[i]) = View(cells, roots[i])]_mcvars
